@@ -63,6 +63,7 @@ type File struct {
 	name  string
 	write bool
 	std   *stdStream
+	dev   *vdev
 }
 
 func wrap(f *os.File, name string, write bool) *File { return &File{f: f, name: name, write: write} }
@@ -71,6 +72,9 @@ func (f *File) Name() string { return f.name }
 func (f *File) Fd() uintptr {
 	if f.std != nil {
 		return f.std.fd
+	}
+	if f.dev != nil {
+		return ^uintptr(0)
 	}
 	return f.f.Fd()
 }
@@ -90,15 +94,22 @@ func (f *File) Write(p []byte) (int, error) {
 		}
 		n := 0
 		if k > 0 {
-			n, _ = f.f.Write(p[:k])
+			n, _ = f.rawWrite(p[:k])
 		}
 		err := pathErr("write", f.name, ft.Kind)
 		opDone(seq, n, err)
 		return n, err
 	}
-	n, err := f.f.Write(p)
+	n, err := f.rawWrite(p)
 	opDone(seq, n, err)
 	return n, err
+}
+
+func (f *File) rawWrite(p []byte) (int, error) {
+	if f.dev != nil {
+		return f.dev.write(p)
+	}
+	return f.f.Write(p)
 }
 
 func (f *File) WriteString(s string) (int, error) { return f.Write([]byte(s)) }
@@ -109,6 +120,11 @@ func (f *File) WriteAt(p []byte, off int64) (int, error) {
 		err := pathErr("write", f.name, ft.Kind)
 		opDone(seq, 0, err)
 		return 0, err
+	}
+	if f.dev != nil {
+		n, err := f.dev.write(p)
+		opDone(seq, n, err)
+		return n, err
 	}
 	n, err := f.f.WriteAt(p, off)
 	opDone(seq, n, err)
@@ -138,7 +154,7 @@ func (f *File) ReadFrom(r io.Reader) (int64, error) {
 }
 
 func (f *File) Read(p []byte) (int, error) {
-	if f.std != nil {
+	if f.std != nil || f.dev != nil {
 		return 0, io.EOF
 	}
 	seq, ft := op("read", f.name)
@@ -165,9 +181,24 @@ func (f *File) Read(p []byte) (int, error) {
 	return n, err
 }
 
-func (f *File) ReadAt(p []byte, off int64) (int, error) { return f.f.ReadAt(p, off) }
-func (f *File) Seek(o int64, w int) (int64, error)       { return f.f.Seek(o, w) }
-func (f *File) Stat() (fs.FileInfo, error)               { return f.f.Stat() }
+func (f *File) ReadAt(p []byte, off int64) (int, error) {
+	if f.dev != nil {
+		return 0, io.EOF
+	}
+	return f.f.ReadAt(p, off)
+}
+func (f *File) Seek(o int64, w int) (int64, error) {
+	if f.dev != nil {
+		return 0, nil
+	}
+	return f.f.Seek(o, w)
+}
+func (f *File) Stat() (fs.FileInfo, error) {
+	if f.dev != nil {
+		return devInfo{f.dev}, nil
+	}
+	return f.f.Stat()
+}
 func (f *File) Chmod(m fs.FileMode) error {
 	seq, ft := op("chmod", f.name)
 	if ft != nil && IsErrno(ft.Kind) {
@@ -175,7 +206,10 @@ func (f *File) Chmod(m fs.FileMode) error {
 		opDone(seq, 0, err)
 		return err
 	}
-	err := f.f.Chmod(m)
+	var err error
+	if f.dev == nil {
+		err = f.f.Chmod(m)
+	}
 	opDone(seq, 0, err)
 	return err
 }
@@ -186,7 +220,10 @@ func (f *File) Truncate(n int64) error {
 		opDone(seq, 0, err)
 		return err
 	}
-	err := f.f.Truncate(n)
+	var err error
+	if f.dev == nil {
+		err = f.f.Truncate(n)
+	}
 	opDone(seq, 0, err)
 	return err
 }
@@ -200,7 +237,10 @@ func (f *File) Sync() error {
 		opDone(seq, 0, err)
 		return err
 	}
-	err := f.f.Sync()
+	var err error
+	if f.dev == nil {
+		err = f.f.Sync()
+	}
 	opDone(seq, 0, err)
 	return err
 }
@@ -214,12 +254,17 @@ func (f *File) Close() error {
 	}
 	seq, ft := op(kind, f.name)
 	if ft != nil && IsErrno(ft.Kind) {
-		_ = f.f.Close() // the descriptor is released, the data may or may not be on disk
+		if f.dev == nil {
+			_ = f.f.Close() // the descriptor is released, the data may or may not be on disk
+		}
 		err := pathErr("close", f.name, ft.Kind)
 		opDone(seq, 0, err)
 		return err
 	}
-	err := f.f.Close()
+	var err error
+	if f.dev == nil {
+		err = f.f.Close()
+	}
 	opDone(seq, 0, err)
 	return err
 }
@@ -249,6 +294,18 @@ func OpenFile(name string, flag int, perm fs.FileMode) (*File, error) {
 		opDone(seq, 0, err)
 		return nil, err
 	}
+	if d := lookupVDev(name); d != nil {
+		if d.replaced && flag&os.O_TRUNC != 0 {
+			d.content = nil
+		}
+		opDone(seq, 0, nil)
+		return &File{name: name, write: write, dev: d}, nil
+	}
+	if write && outside(name) {
+		err := denyWrite("open", name)
+		opDone(seq, 0, err)
+		return nil, err
+	}
 	f, err := os.OpenFile(name, flag, perm)
 	opDone(seq, 0, err)
 	if err != nil {
@@ -262,7 +319,15 @@ func Create(name string) (*File, error) {
 	return OpenFile(name, os.O_RDWR|os.O_CREATE|os.O_TRUNC, 0666)
 }
 
-var tmpCounter int
+// temp names are random in reality: here they derive from the run's random seed, so a name
+// leaking into an observable shows up as a divergence between twins
+func tmpName() string {
+	if cur == nil {
+		return "sim0"
+	}
+	cur.tmpCounter++
+	return "sim" + itoa(int(choice.Mix(cur.RandSeed, uint64(cur.tmpCounter))%1000000000))
+}
 
 func CreateTemp(dir, pattern string) (*File, error) {
 	if dir == "" {
@@ -274,14 +339,18 @@ func CreateTemp(dir, pattern string) (*File, error) {
 		opDone(seq, 0, err)
 		return nil, err
 	}
+	if outside(dir) {
+		err := denyWrite("open", filepath.Join(dir, pattern))
+		opDone(seq, 0, err)
+		return nil, err
+	}
 	// deterministic name: the real one is random
 	prefix, suffix := pattern, ""
 	if i := strings.LastIndex(pattern, "*"); i >= 0 {
 		prefix, suffix = pattern[:i], pattern[i+1:]
 	}
 	for try := 0; try < 10000; try++ {
-		tmpCounter++
-		name := filepath.Join(dir, prefix+"sim"+itoa(tmpCounter)+suffix)
+		name := filepath.Join(dir, prefix+tmpName()+suffix)
 		f, err := os.OpenFile(name, os.O_RDWR|os.O_CREATE|os.O_EXCL, 0600)
 		if errors.Is(err, fs.ErrExist) {
 			continue
@@ -314,10 +383,10 @@ func MkdirTemp(dir, pattern string) (string, error) {
 	if dir == "" {
 		dir = TempDir()
 	}
-	tmpCounter++
-	name := filepath.Join(dir, strings.Replace(pattern, "*", "sim"+itoa(tmpCounter), 1))
+	tn := tmpName()
+	name := filepath.Join(dir, strings.Replace(pattern, "*", tn, 1))
 	if !strings.Contains(pattern, "*") {
-		name = filepath.Join(dir, pattern+"sim"+itoa(tmpCounter))
+		name = filepath.Join(dir, pattern+tn)
 	}
 	return name, Mkdir(name, 0700)
 }
@@ -441,9 +510,24 @@ func simple(kind, opname, path string, do func() error) error {
 		opDone(seq, 0, err)
 		return err
 	}
-	err := do()
+	var err error
+	if anyProtected(path) {
+		err = denyWrite(opname, path)
+	} else {
+		err = do()
+	}
 	opDone(seq, 0, err)
 	return err
+}
+
+// anyProtected: path (or "a -> b") touches a virtual device or leaves the private tree.
+func anyProtected(path string) bool {
+	for _, p := range strings.Split(path, " -> ") {
+		if lookupVDev(p) != nil || outside(p) {
+			return true
+		}
+	}
+	return false
 }
 
 func Rename(oldpath, newpath string) error {
@@ -453,7 +537,23 @@ func Rename(oldpath, newpath string) error {
 		opDone(seq, 0, err)
 		return err
 	}
-	err := os.Rename(oldpath, newpath)
+	var err error
+	if d := lookupVDev(newpath); d != nil && !outside(oldpath) {
+		// the device node is replaced by the renamed file (virtually: the real node is untouched)
+		b, rerr := os.ReadFile(oldpath)
+		if rerr != nil {
+			err = &os.LinkError{Op: "rename", Old: oldpath, New: newpath, Err: errnoByName["ENOENT"]}
+		} else {
+			_ = os.Remove(oldpath)
+			d.replaced, d.content = true, b
+			use("virtual-device-replaced-by-rename")
+		}
+	} else if outside(oldpath) || outside(newpath) {
+		err = &os.LinkError{Op: "rename", Old: oldpath, New: newpath, Err: errnoByName["EACCES"]}
+		use("write-outside-world-refused")
+	} else {
+		err = os.Rename(oldpath, newpath)
+	}
 	opDone(seq, 0, err)
 	return err
 }
@@ -491,6 +591,10 @@ func Stat(name string) (fs.FileInfo, error) {
 		opDone(seq, 0, err)
 		return nil, err
 	}
+	if d := lookupVDev(name); d != nil {
+		opDone(seq, 0, nil)
+		return devInfo{d}, nil
+	}
 	fi, err := os.Stat(name)
 	opDone(seq, 0, err)
 	return fi, err
@@ -501,6 +605,10 @@ func Lstat(name string) (fs.FileInfo, error) {
 		err := pathErr("lstat", name, ft.Kind)
 		opDone(seq, 0, err)
 		return nil, err
+	}
+	if d := lookupVDev(name); d != nil {
+		opDone(seq, 0, nil)
+		return devInfo{d}, nil
 	}
 	fi, err := os.Lstat(name)
 	opDone(seq, 0, err)
